@@ -1,8 +1,10 @@
 import Lean.Data.Json
-import SkfemVerif.Model.Np
+import SkfemVerif.Drv.Base
 import SkfemVerif.Model.Topology
 import SkfemVerif.Model.Dofs
 import SkfemVerif.Model.Assembly
+import SkfemVerif.Drv.BC
+import SkfemVerif.Drv.Quad
 /-
 Line-protocol driver: one JSON object per input line, one JSON value per output line.
 Imports only the (Mathlib-free) models, so it can be linked as an executable.
@@ -10,42 +12,6 @@ Imports only the (Mathlib-free) models, so it can be linked as an executable.
 open Lean Skv
 
 namespace Drv
-
-def err (msg : String) : Json := Json.mkObj [("error", Json.str msg)]
-
-def getNat? (j : Json) : Option Nat :=
-  match j.getInt? with
-  | .ok i => if i ≥ 0 then some i.toNat else none
-  | _ => none
-
-def getInt? (j : Json) : Option Int :=
-  match j.getInt? with
-  | .ok i => some i
-  | _ => none
-
-def getNatList? (j : Json) : Option (List Nat) :=
-  match j.getArr? with
-  | .ok a => a.toList.mapM getNat?
-  | _ => none
-
-def getIntList? (j : Json) : Option (List Int) :=
-  match j.getArr? with
-  | .ok a => a.toList.mapM getInt?
-  | _ => none
-
-def getNatMat? (j : Json) : Option (List (List Nat)) :=
-  match j.getArr? with
-  | .ok a => a.toList.mapM getNatList?
-  | _ => none
-
-def field? (j : Json) (k : String) : Option Json :=
-  match j.getObjVal? k with
-  | .ok v => some v
-  | _ => none
-
-def natList (l : List Nat) : Json := Json.arr (l.map (fun n => Json.num (JsonNumber.fromNat n))).toArray
-def intList (l : List Int) : Json := Json.arr (l.map (fun n => Json.num (JsonNumber.fromInt n))).toArray
-def natMat (m : List (List Nat)) : Json := Json.arr (m.map natList).toArray
 
 def opTopoEntities (j : Json) : Option Json := do
   let cells ← (field? j "cells") >>= getNatMat?
@@ -95,13 +61,6 @@ def opDofsInit (j : Json) : Option Json := do
     ("element_dofs", natMat (elementDofs c tp)), ("N", Json.num (JsonNumber.fromNat (dofsN c tp))),
     ("total", Json.num (JsonNumber.fromNat (dofsTotal c tp)))]
 
-def getStrList? (j : Json) : Option (List String) :=
-  match j.getArr? with
-  | .ok a => a.toList.mapM (fun x => match x with | Json.str s => some s | _ => none)
-  | _ => none
-
-def getBool? (j : Json) : Option Bool := match j with | Json.bool b => some b | _ => none
-
 /-- dofs.view : flatten of a view given index sets and name filter -/
 def opDofsView (j : Json) : Option Json := do
   let tp ← getTopo? j
@@ -141,6 +100,8 @@ def opThreadChunks (j : Json) : Option Json := do
   pure <| Json.arr ((threadChunks nu nv n).map (fun ch =>
     Json.arr (ch.map (fun p => natList [p.1, p.2])).toArray)).toArray
 
+def extraOps : List (String × (Json → Option Json)) := bcOps ++ quadOps
+
 def dispatch (j : Json) : Json :=
   match field? j "op" with
   | some (Json.str "topo.entities") => (opTopoEntities j).getD (err "bad-args")
@@ -151,6 +112,10 @@ def dispatch (j : Json) : Json :=
   | some (Json.str "topo.expand_facets") => (opExpandFacets j).getD (err "bad-args")
   | some (Json.str "threads.chunks") => (opThreadChunks j).getD (err "bad-args")
   | some (Json.str "ping") => Json.str "pong"
+  | some (Json.str op) =>
+    match extraOps.find? (fun p => p.1 == op) with
+    | some (_, f) => (f j).getD (err "bad-args")
+    | none => err "bad-op"
   | _ => err "bad-op"
 
 partial def loop (hin : IO.FS.Stream) (hout : IO.FS.Stream) : IO Unit := do
@@ -169,3 +134,4 @@ def main : IO Unit := do
   let hout ← IO.getStdout
   Drv.loop hin hout
   hout.flush
+-- touch
